@@ -21,7 +21,7 @@ class Ctx:
         self.quick = tier == "quick"
         self.seed = seed
         self.repo = repo
-        self.work = os.path.join(VERIF, ".work", pid)
+        self.work = os.path.join(VERIF, ".work", "%s-%d" % (pid, os.getpid()))      # per process: concurrent runs do not collide
         self.rng = random.Random("%s-%d" % (pid, seed))
         # results
         self.violations = []      # dicts {clause, case, expected, actual, ...}
